@@ -599,6 +599,106 @@ example : ∃ ct, Core.glweEncryptPk 64 3 6 2 2 5 [[[2, -3], [-2, 2]], [[1, -2],
       · omega)
   exact ⟨ct, h1⟩
 
+/-- **public-key noise bound in the explicit form of the secret-key one**: key and ciphertext at the same noise
+precision `kxe`, all error integers within the rejection loop's post-condition `|e| ≤ E ≤ B·2^scale`
+(`scale = (limb+1)·b − kxe`): the error term `x` of `glwe_encrypt_pk_error` (`|x| ≤ (1+‖u‖₁+Σ‖sᵢ‖₁)·E·U`)
+satisfies `|x|·2^kxe ≤ B·(1 + ‖u‖₁ + Σ‖sᵢ‖₁)·2^(b·size)`, i.e. it is at most
+`bound·(1 + ‖u‖₁ + Σ‖sᵢ‖₁)·2^-kxe` on the torus. -/
+theorem glwe_encrypt_pk_noise_bound {b size kxe : Nat} {x E B : Int} (u : Poly) (sk : List Poly)
+    (hlimb : errLimb kxe b < size) (hk : kxe ≤ (errLimb kxe b + 1) * b) (hE0 : 0 ≤ E)
+    (hE : E ≤ B * 2 ^ ((errLimb kxe b + 1) * b - kxe))
+    (hx : |x| ≤ norm1 u * E * 2 ^ (b * (size - 1 - errLimb kxe b)) + (1 + sumNorm1 sk) * E * 2 ^ (b * (size - 1 - errLimb kxe b))) :
+    |x| * 2 ^ kxe ≤ B * (1 + norm1 u + sumNorm1 sk) * 2 ^ (b * size) := by
+  have hN : 0 ≤ 1 + norm1 u + sumNorm1 sk := by have := norm1_nonneg u; have := sumNorm1_nonneg sk; linarith
+  have hs := noise_scale (e := E) (B := B) hlimb hk (by rw [abs_of_nonneg hE0]; exact hE)
+  have hU : (0 : Int) < 2 ^ (b * (size - 1 - errLimb kxe b)) := two_pow_pos _
+  have hK : (0 : Int) < 2 ^ kxe := two_pow_pos _
+  rw [abs_mul, abs_of_nonneg hE0, abs_of_pos hU] at hs
+  have hx' : |x| ≤ (1 + norm1 u + sumNorm1 sk) * (E * 2 ^ (b * (size - 1 - errLimb kxe b))) := by
+    have : norm1 u * E * 2 ^ (b * (size - 1 - errLimb kxe b)) + (1 + sumNorm1 sk) * E * 2 ^ (b * (size - 1 - errLimb kxe b))
+        = (1 + norm1 u + sumNorm1 sk) * (E * 2 ^ (b * (size - 1 - errLimb kxe b))) := by ring
+    rw [← this]; exact hx
+  calc |x| * 2 ^ kxe ≤ (1 + norm1 u + sumNorm1 sk) * (E * 2 ^ (b * (size - 1 - errLimb kxe b))) * 2 ^ kxe :=
+        mul_le_mul_of_nonneg_right hx' (le_of_lt hK)
+    _ = (1 + norm1 u + sumNorm1 sk) * (E * 2 ^ (b * (size - 1 - errLimb kxe b)) * 2 ^ kxe) := by ring
+    _ ≤ (1 + norm1 u + sumNorm1 sk) * (B * 2 ^ (b * size)) := mul_le_mul_of_nonneg_left hs hN
+    _ = B * (1 + norm1 u + sumNorm1 sk) * 2 ^ (b * size) := by ring
+
+/-- non-vacuity: radix 2^7, three limbs, precision 18 (scale 3), bound 20, ‖u‖₁ = 3, one secret of 1-norm 2 -/
+example : |(-900 : Int)| * 2 ^ 18 ≤ 20 * (1 + norm1 [1, -1, 1, 0] + sumNorm1 [[1, 0, -1, 0]]) * 2 ^ (7 * 3) :=
+  glwe_encrypt_pk_noise_bound (b := 7) (size := 3) (kxe := 18) (x := -900) (E := 150) (B := 20) [1, -1, 1, 0] [[1, 0, -1, 0]]
+    (by decide) (by decide) (by norm_num) (by decide) (by decide)
+
+/-! ### zero and rank-0 forms
+
+`glwe_encrypt_zero_sk` is `Core.glweEncryptSk … none` and `glwe_encrypt_zero_pk` is `Core.glweEncryptPk … none`: the
+theorems above hold for `m = none` (message value 0).  A rank-0 ciphertext has no mask (`masks = []`, `sk = []`):
+its exact phase is its body.  `glwe_public_key_generate` is `glwe_encrypt_zero_sk` (its phase identity is the
+hypothesis `hfresh` of `glwe_encrypt_pk_error`).  poulpy has no `lwe_encrypt_zero`. -/
+
+/-- **`glwe_encrypt_zero_sk`** (and `glwe_public_key_generate`): the phase is the placed error, exactly on the torus -/
+theorem glwe_encrypt_zero_sk_phase {bits b n size kxe k : Nat} {H E : Int}
+    (hbits : bits = 64 ∨ bits = 128) (hr : HeadRoom bits b 0 H) (hb1 : 1 ≤ b) (hb : b ≤ 61)
+    (hk : 1 ≤ kxe) (hlimb : errLimb kxe b < size)
+    (masks : List Col) (sk : List Poly) (e : Poly)
+    (hlen : masks.length = sk.length) (hmasks : ∀ a ∈ masks, a.length = size ∧ WF n a)
+    (hprod : ProdBounded H masks sk) (he : e.length = n) (hE0 : 0 ≤ E) (heB : ∀ x ∈ e, |x| ≤ E)
+    (hsum : (masks.length : Int) * 2 ^ (b - 1) + E ≤ 2 ^ 62) :
+    ∃ body, Core.glweEncryptSk bits b k n size kxe masks none 0 sk e = some { base2k := b, k := k, n := n, cols := body :: masks } ∧
+      ∀ t, t < n → ∃ K : Int, Core.valCoeff b (Core.phaseBig sk { base2k := b, k := k, n := n, cols := body :: masks }) t =
+        e.getD t 0 * 2 ^ (b * (size - 1 - errLimb kxe b)) + K * 2 ^ (b * size) := by
+  obtain ⟨body, h1, _, _, _, h5⟩ := glwe_encrypt_sk_phase (k := k) (M := 0) hbits hr hb1 hb hk hlimb masks sk none e hlen hmasks hprod 0
+    (by intro h; cases h) (by intro p hp; cases hp) (le_refl 0) he hE0 heB (by linarith)
+  refine ⟨body, h1, ?_⟩
+  intro t ht
+  obtain ⟨K, hK⟩ := h5 t ht
+  exact ⟨K, by rw [hK]; simp [msgCoeff]⟩
+
+example : ∃ body, Core.glweEncryptSk 64 3 6 2 2 5 [[[1, -2], [3, 0]]] none 0 [[1, -1]] [1, -1] = some { base2k := 3, k := 6, n := 2, cols := body :: [[[1, -2], [3, 0]]] } := by
+  have hr : HeadRoom 64 3 0 (2 ^ 62) := ⟨by norm_num, by norm_num, by norm_num, by norm_num, by norm_num⟩
+  obtain ⟨body, h1, _⟩ := glwe_encrypt_zero_sk_phase (bits := 64) (b := 3) (n := 2) (size := 2) (kxe := 5) (k := 6) (H := 2 ^ 62) (E := 1)
+    (Or.inl rfl) hr (by norm_num) (by norm_num) (by norm_num) (by decide) [[[1, -2], [3, 0]]] [[1, -1]] [1, -1] rfl
+    (by intro a ha; simp at ha; subst ha; exact ⟨rfl, by intro l hl; simp at hl; rcases hl with rfl | rfl <;> rfl⟩)
+    (by
+      refine ⟨?_, trivial⟩
+      intro l hl x hx
+      have : Core.colMulPoly [1, -1] [[1, -2], [3, 0]] = [[-1, -3], [3, -3]] := by decide
+      rw [this] at hl
+      simp at hl
+      rcases hl with rfl | rfl <;> simp at hx <;> rcases hx with rfl | rfl <;> norm_num)
+    rfl (by norm_num) (by intro x hx; simp at hx; rcases hx with rfl | rfl <;> norm_num) (by norm_num)
+  exact ⟨body, h1⟩
+
+/-- **rank 0 (plaintext-only GLWE)**: no mask, no secret — the body alone carries `message + error`, and the
+exact phase under the empty secret is the body -/
+theorem glwe_encrypt_sk_rank0 {bits b n size kxe k : Nat} {H E M : Int}
+    (hbits : bits = 64 ∨ bits = 128) (hr : HeadRoom bits b 0 H) (hb1 : 1 ≤ b) (hb : b ≤ 61)
+    (hk : 1 ≤ kxe) (hlimb : errLimb kxe b < size) (m : Option Col) (ptB : Nat) (hradix : m.isSome → ptB = b) (e : Poly)
+    (hm : ∀ p, m = some p → WF n p ∧ CoefBounded n M p) (hM0 : 0 ≤ M)
+    (he : e.length = n) (hE0 : 0 ≤ E) (heB : ∀ x ∈ e, |x| ≤ E) (hsum : E + M ≤ 2 ^ 62) :
+    ∃ body, Core.glweEncryptSk bits b k n size kxe [] m ptB [] e = some { base2k := b, k := k, n := n, cols := [body] } ∧
+      Core.phaseBig [] { base2k := b, k := k, n := n, cols := [body] } = body ∧
+      ∀ t, t < n → ∃ K : Int, Core.valCoeff b body t =
+        msgCoeff b n size m t + e.getD t 0 * 2 ^ (b * (size - 1 - errLimb kxe b)) + K * 2 ^ (b * size) := by
+  obtain ⟨body, h1, _, _, _, h5⟩ := glwe_encrypt_sk_phase (k := k) hbits hr hb1 hb hk hlimb [] [] m e rfl (by intro a ha; cases ha) trivial ptB hradix
+    hm hM0 he hE0 heB (by simpa using hsum)
+  have hph : Core.phaseBig [] { base2k := b, k := k, n := n, cols := [body] } = body := by simp [Core.phaseBig]
+  exact ⟨body, h1, hph, fun t ht => by rw [← hph]; exact h5 t ht⟩
+
+example : ∃ body, Core.glweEncryptSk 64 3 6 2 2 5 [] (some [[1, 2]]) 3 [] [1, -1] = some { base2k := 3, k := 6, n := 2, cols := [body] } := by
+  have hr : HeadRoom 64 3 0 (2 ^ 62) := ⟨by norm_num, by norm_num, by norm_num, by norm_num, by norm_num⟩
+  obtain ⟨body, h1, _⟩ := glwe_encrypt_sk_rank0 (bits := 64) (b := 3) (n := 2) (size := 2) (kxe := 5) (k := 6) (H := 2 ^ 62) (E := 1) (M := 2)
+    (Or.inl rfl) hr (by norm_num) (by norm_num) (by norm_num) (by decide) (some [[1, 2]]) 3 (fun _ => rfl) [1, -1]
+    (by
+      intro p hp; simp at hp; subst hp
+      refine ⟨by intro l hl; simp at hl; subst hl; rfl, ?_⟩
+      intro t _ v hv
+      simp [coefAt] at hv
+      subst hv
+      rcases t with _ | _ | t <;> simp)
+    (by norm_num) rfl (by norm_num) (by intro x hx; simp at hx; rcases hx with rfl | rfl <;> norm_num) (by norm_num)
+  exact ⟨body, h1⟩
+
 /-! ### LWE -/
 
 /-- **`lwe_encrypt_sk` phase identity**: for every LWE dimension, radix `1 ≤ b ≤ 61`, size, noise precision with
